@@ -194,7 +194,7 @@ func c11State(c *Ctx, n *Node) []Violation {
 }
 
 func checkC11(e *RunEnv) *CheckResult {
-	msgs := []string{"m", "fix: x", "a\tb", "two\nlines", "s\nthree word line", " lead", "trail ", "é", "x: y: z"}
+	msgs := []string{"m", "100% %s done", "fix: x", "a\tb", "two\nlines", "s\nthree word line", " lead", "trail ", "é", "x: y: z"}
 	spec := &Spec{
 		Seeds: []Seed{{"S0", seedS0()}, {"S2", seedS2()}, {"chain12", seedChain(12)}},
 		Depth: e.pick(3, 4),
